@@ -53,6 +53,27 @@ class H(EqByMode, desper.Handle):
     def __repr__(self):
         return 'H%d' % self.tag
 
+    @property
+    def denotes(self):
+        """the resource this handle denotes: what calling it returns"""
+        return self.res
+
+
+class ViewH(H):
+    """a handle that refines __call__: it hands out a (fixed) read-only view of what it loaded, not the raw object"""
+
+    def __init__(self):
+        super().__init__()
+        self.view = ('view of', self.res)
+
+    def __call__(self):
+        super().__call__()
+        return self.view
+
+    @property
+    def denotes(self):
+        return self.view
+
 
 def decode_path(p):
     depth = (1, 1, 2, 2, 3, 4)[p % 6]
@@ -134,7 +155,9 @@ class Run:
     def make_value(self, kind):
         """returns (real object, model node) - model node is an MMap or the handle itself"""
         if kind in (0, 1, 6, 7):
-            h = H()
+            h = ViewH() if (kind == 0 and self.step_ix % 4 == 3) else H()
+            if isinstance(h, ViewH):
+                self.flags['handle_that_refines_call'] += 1
             h.falsy = kind == 1
             if kind >= 6:
                 # a handle with value semantics (think of a dataclass handle: equal file name, equal handle):
@@ -326,7 +349,7 @@ class Run:
             if g is not expect:
                 self.viol('get_returns_other_handle_than_latest_assigned', key=key, got=repr(g),
                           expected=repr(expect))
-            if item is not expect.res or g() is not expect.res:
+            if item is not expect.denotes or g() is not expect.denotes:
                 self.viol('getitem_and_get_call_denote_different_resources', key=key, item=repr(item))
         # chained access
         try:
